@@ -25,7 +25,7 @@ from vf.runner import Skip, Sub
 PROPERTY = "C07"
 LEVEL = "exploration"
 RULE = (
-    "Datasets, parity moments, bounds and containers as in C06 (2..4 groups, optional 1..3 control strata, "
+    "Datasets, parity moments, bounds and containers as in C06 (2..4 groups, a fifth of the cases up to 12 or 25, optional 1..3 control strata, "
     "n in [2,20], sparse (stratum, group, label) cells); per case two prediction vectors (hard/soft), two "
     "multiplier vectors lambda, mu >= 0 (each entry 0 with probability 1/3), coefficients alpha in [0,1], "
     "a, b >= 0. Sub-check 'parity_identity' evaluates the identity on every (index entry, row) pair of the "
